@@ -1,4 +1,5 @@
 import LhasaV.Lemmas.LzRoundTrip
+import LhasaV.Lemmas.GenInit
 /-!
 # C03 — LArc lzs / lz5 and the stored methods decode every valid stream exactly
 
@@ -46,5 +47,15 @@ theorem ring_copy_refines (N : Nat) (hN : 0 < N) (n p : Nat) (a : Array UInt8) (
         = .ok (a', (copyRing N n p w r).2.2, (copyRing N n p w r).1.reverse ++ acc) ∧
       LzRoundTrip.RingRel N a' (copyRing N n p w r).2.1 ∧ (copyRing N n p w r).2.2 < N :=
   LzRoundTrip.copyLoop_spec N hN n p a w acc r hrel hw
+
+/-- **Translator tie for the initial state**: the ring `lha_lz5_init` of the working tree builds (dumped into `Gen/Decoders.lean`
+on every run) is the ring the model starts from, cell by cell, with the same write position; `lha_lzs_init`: a ring of spaces and
+the write position `RING_BUFFER_SIZE − START_OFFSET`. -/
+theorem lz_init_matches_source (src : Src) :
+    ((∀ i, i < 4096 → (Lz5.init src).ring[i]?.map (·.toNat) = Gen.lz5InitRing[i]?) ∧ (Lz5.init src).pos = Gen.lz5InitRingPos
+      ∧ Gen.lz5InitOk = 1)
+    ∧ ((Lzs.init src).ring = Array.replicate Gen.lzsRingCap 0x20 ∧ Gen.lzsInitRingAllSpaces = 1 ∧ (Lzs.init src).pos = Gen.lzsInitRingPos
+      ∧ Gen.lzsInitOk = 1) :=
+  ⟨GenInit.lz5_init_matches_source src, GenInit.lzs_init_matches_source src⟩
 
 end LhasaV.Props.C03
